@@ -1149,13 +1149,15 @@ class Component(
 
         # Remove component from caches
         def on_component_rendered(html: str) -> str:
-            with self._with_metadata(metadata):
-                # Allow to optionally override/modify the rendered content
-                new_output = self.on_render_after(context_snapshot, template, html)
-                html = new_output if new_output is not None else html
-
-            del component_context_cache[render_id]  # type: ignore[arg-type]
-            unregister_provide_reference(render_id)  # type: ignore[arg-type]
+            try:
+                with self._with_metadata(metadata):
+                    # Allow to optionally override/modify the rendered content
+                    new_output = self.on_render_after(context_snapshot, template, html)
+                    html = new_output if new_output is not None else html
+            finally:
+                # NOTE: Release the per-render state also when `on_render_after()` raises
+                del component_context_cache[render_id]  # type: ignore[arg-type]
+                unregister_provide_reference(render_id)  # type: ignore[arg-type]
 
             if app_settings.DEBUG_HIGHLIGHT_COMPONENTS:
                 html = apply_component_highlight("component", html, f"{self.name} ({render_id})")
